@@ -79,6 +79,21 @@ func main() {
 		for i, t := range c {
 			fmt.Printf("---- %d\n%s\n", i, t)
 		}
+	case "effects":
+		// debugging aid: the write effects hvc assumes for calls of a function
+		p, err := loadProg(envOr("HVC_ROOT", "/repo"))
+		if err != nil {
+			fmt.Println(err)
+			os.Exit(2)
+		}
+		p.computeEffects()
+		for _, n := range sortedKeys(p.ByName) {
+			if len(os.Args) > 2 && strings.Contains(n, os.Args[2]) {
+				e := p.effects(p.ByName[n])
+				fmt.Printf("%s top=%v writes=%v\n", n, e.Top, sortedKeys(e.Writes))
+			}
+		}
+		os.Exit(0)
 	case "overlay":
 		cmdOverlay(os.Args[2:])
 	default:
@@ -131,7 +146,16 @@ func cmdCheck(args []string) int {
 	units := unitsFor(p, *prop)
 	var results []*UnitResult
 	var all []*Obligation
+	// the check of a property also verifies the contracts its units rely on at
+	// their call sites (functions listed under other properties), transitively:
+	// a change that breaks such a callee is then reported by this check too
+	inSet := map[string]bool{}
 	for _, fi := range units {
+		inSet[fi.Name()] = true
+	}
+	deps := map[string]bool{}
+	for i := 0; i < len(units); i++ {
+		fi := units[i]
 		if *only != "" && !strings.Contains(fi.Name(), *only) {
 			continue
 		}
@@ -143,8 +167,46 @@ func cmdCheck(args []string) int {
 			}
 			return rs
 		}() {
+			r.Dependency = deps[fi.Name()]
 			results = append(results, r)
 			all = append(all, r.Obligations...)
+			if *prop == "all" || os.Getenv("HVC_NODEPS") != "" {
+				continue
+			}
+			for _, n := range sortedKeys(r.Used) {
+				cf := p.ByName[n]
+				if inSet[n] || cf == nil || cf.Contract == nil || cf.Body() == nil || cf.Flag("trusted") {
+					continue
+				}
+				inSet[n] = true
+				deps[n] = true
+				units = append(units, cf)
+			}
+		}
+	}
+	if os.Getenv("HVC_DEPS") != "" {
+		inSet := map[string]bool{}
+		for _, fi := range units {
+			inSet[fi.Name()] = true
+		}
+		ext := map[string]bool{}
+		for _, r := range results {
+			for n := range r.Used {
+				if !inSet[n] {
+					ext[n] = true
+				}
+			}
+		}
+		for _, n := range sortedKeys(ext) {
+			fi := p.ByName[n]
+			tag := "verified-under " + strings.Join(fi.Contract.Serves, ",")
+			if fi.Flag("trusted") {
+				tag = "TRUSTED"
+			}
+			fmt.Printf("DEP %s %s %s\n", *prop, n, tag)
+		}
+		if os.Getenv("HVC_DEPS") == "only" {
+			return 0
 		}
 	}
 	opts := SolveOpts{QuickT: 3, SlowT: 20, Workers: runtime.NumCPU()}
